@@ -406,7 +406,7 @@ class Evaluator:
         if mi is not None and nm in mi.assigns and q not in self.repo.functions \
                 and q not in self.repo.classes:
             lit = mi.assigns[nm]
-            if isinstance(lit, ast.Constant) and isinstance(lit.value, (int, float)) \
+            if isinstance(lit, ast.Constant) and isinstance(lit.value, (int, float, str)) \
                     and not isinstance(lit.value, bool):
                 return c(lit.value)
             if isinstance(lit, ast.UnaryOp) and isinstance(lit.op, ast.USub) and isinstance(
@@ -445,6 +445,16 @@ class Evaluator:
             q = f"{base[1]}.{e.attr}"
             q2 = self.repo._follow(q)
             return self._global(q2)
+        # field of a record chosen by a test: (A(..) if c else B(..)).f is A(..).f if c else B(..).f
+        if base[0] == "phi" and len(base) == 4 and base[1][0] != "path" and all(
+                arm[0] == "call" and arm[1][0] == "g" and arm[1][1] in self.repo.classes
+                for arm in (base[2], base[3])):
+            arms = []
+            for arm in (base[2], base[3]):
+                fake = ast.Attribute(value=ast.Constant(value=None), attr=e.attr, ctx=ast.Load())
+                arms.append(self._field_of(arm, e.attr))
+            if all(a is not None for a in arms):
+                return phi_(base[1], arms[0], arms[1])
         # field of a freshly constructed (data)class instance: Carry(a, b, c).epoch -> c
         if base[0] == "call" and base[1][0] == "g" and base[1][1] in self.repo.classes:
             ci = self.repo.classes[base[1][1]]
@@ -475,6 +485,21 @@ class Evaluator:
                 if r is not None:
                     return r
         return loc
+
+    def _field_of(self, base, attr):
+        """value of field `attr` of a constructor-call term of a plain record class"""
+        if not (base[0] == "call" and base[1][0] == "g" and base[1][1] in self.repo.classes):
+            return None
+        ci = self.repo.classes[base[1][1]]
+        fields = ci.annotated_fields()
+        if attr not in fields or ci.own_method("__init__") is not None \
+                or any(t[0] == "star" for t in base[2]):
+            return None
+        for k, v in base[3]:
+            if k == attr:
+                return v
+        i = fields.index(attr)
+        return base[2][i] if i < len(base[2]) else None
 
     def e_Subscript(self, e):
         base = self.expr(e.value)
@@ -668,6 +693,27 @@ class Evaluator:
                 and not kwargs and "." not in f[2][0][1]:
             loc = ("a", args[0], f[2][0][1])
             return self.env.heap.get(loc, loc)
+        # functools.partial(g, a, k=v)(b) is g(a, b, k=v)
+        if f[0] == "call" and fn_name(f[1]) == "functools.partial" and f[2] \
+                and not any(a[0] == "star" for a in f[2]):
+            inner_f = f[2][0]
+            merged_kw = dict(f[3])
+            merged_kw.update(dict(kwargs))
+            a2 = tuple(f[2][1:]) + tuple(args)
+            if inner_f[0] == "lambda":
+                fake_call = ast.copy_location(ast.Call(func=e.func, args=[], keywords=[]), e)
+                params = list(inner_f[1])
+                if not merged_kw and len(a2) == len(params) and not any(
+                        p_.startswith("*") for p_ in params):
+                    return substitute(inner_f[2], {n(p_): v_ for p_, v_ in zip(params, a2)})
+            a3, k3 = self._canon_call(inner_f, a2, list(merged_kw.items()))
+            t2 = ("call", inner_f, a3, tuple(sorted(k3)))
+            self.res.calls.append((t2, e, self.cond))
+            if self.inline is not None:
+                r = self.inline(self, t2, e)
+                if r is not None:
+                    return r
+            return t2
         if f[0] == "phi" and len(f) == 4 and f[1][0] != "path":
             # calling a conditionally chosen function: (f if c else g)(x) is
             # f(x) if c else g(x) -- the choice may be made before or around the call
@@ -870,6 +916,19 @@ class Evaluator:
                     self.assign(t.value, ("proj", value, f"{i}:"), node)
                 elif value[0] in ("tuple", "list") and len(value[1]) == len(target.elts):
                     self.assign(t, value[1][i], node)
+                elif value[0] == "phi" and len(value) == 4 and value[1][0] != "path" and all(
+                        arm[0] in ("tuple", "list") and len(arm) == 2
+                        and len(arm[1]) == len(target.elts) for arm in (value[2], value[3])):
+                    # a, b = (x, y) if c else (u, v)
+                    self.assign(t, phi_(value[1], value[2][1][i], value[3][1][i]), node)
+                elif value[0] == "call" and value[1][0] == "g" and value[1][1] in self.repo.classes \
+                        and self.repo.classes[value[1][1]].own_method("__init__") is None \
+                        and not value[3] and len(value[2]) == len(target.elts) \
+                        and not any(a_[0] == "star" for a_ in value[2]) \
+                        and any("NamedTuple" in str(b_) for b_ in
+                                self.repo.classes[value[1][1]].base_names):
+                    # a, b = Record(x, y)   (a NamedTuple unpacks to its fields)
+                    self.assign(t, value[2][i], node)
                 else:
                     self.assign(t, ("proj", value, i), node)
         elif isinstance(target, ast.Attribute):
